@@ -703,8 +703,10 @@ Definition ren_ins (f : name -> name) (which : list nat) (e : entry) : entry :=
 Definition update_inputs (meta : bool) (rty : N) (old new : name) (flags : N) (e : entry) : entry :=
   let updb := N.testbit flags 1 in
   let dangle := N.testbit flags 2 in
-  let upd_sc := negb meta || is_scalar_ty rty in
-  let upd_vec := negb meta || negb (is_scalar_ty rty) in
+  (* rdat->type & GD_SCALAR_ENTRY_BIT; a dangling alias has type GD_ALIAS_ENTRY = -1, all bits set *)
+  let sc := is_scalar_ty rty || (rty =? T_ALIAS) in
+  let upd_sc := negb meta || sc in
+  let upd_vec := negb meta || negb sc in
   let e1 := if upd_vec then ren_ins (rename_code meta old new updb) (in_order (e_ty e) (length (e_ins e))) e else e in
   let e2 := if upd_sc && negb (is_alias e1) then
               set_scs e1 (map (fun o => match o with Some cd => Some (rename_code meta old new updb cd) | None => None end) (e_scs e1))
